@@ -45,6 +45,15 @@ def run_property(mod, tier, seed, replay=None):
             site = V.coq_error_site(log)
             unproved.append({"what": "theorem", "file": mod.PROP_FILE, "theorems": thms,
                              "detail": site or log[-1500:]})
+        # non-vacuity witnesses: concrete non-trivial values that meet each theorem's hypotheses
+        ex_file = mod.PROP_FILE.replace("Properties_", "Examples_")
+        examples = 0
+        if os.path.exists(os.path.join(V.COQ, ex_file)):
+            ok3, log3 = V.coq_make([ex_file[:-2] + ".vo"])
+            if ok3:
+                examples = len(V.theorems_of(ex_file, kinds=("Example",)))
+            else:
+                unproved.append({"what": "examples", "file": ex_file, "detail": V.coq_error_site(log3) or log3[-1500:]})
         drv, dlog = V.build_driver()
         if drv is None:
             unproved.append({"what": "model-build", "detail": (V.coq_error_site(dlog) or dlog[-1500:])})
@@ -151,7 +160,7 @@ def run_property(mod, tier, seed, replay=None):
             "obligations": len(thms), "discharged": discharged,
             "checker_cmd": "cd coq && make -k -j%d %s   (coqc 8.16.1 full .vo build; Print Assumptions re-run by coqc on %s)" % (V.NPROC, target, mod.PROP_FILE),
             "trusted_base": mod.TRUSTED,
-            "theorems": thms, "axioms_per_theorem": axioms,
+            "theorems": thms, "axioms_per_theorem": axioms, "nonvacuity_examples": examples,
             "gen": {k: tr.get(k) for k in ("changed", "n_enumerators", "n_defines", "n_records")},
             "evaluations": evaluations, "distinct_nontrivial": len(nontriv),
             "rule": getattr(mod, "RULE", ""), "samples": samples,
